@@ -12,7 +12,7 @@ fn nontrivial(v: &Verdict) -> bool {
 }
 
 pub fn exec(line: &str, rec: &mut Recorder) {
-    if line.starts_with("msg ") || line.starts_with("rt ") || line.starts_with("asm ") || line.starts_with("resp ") {
+    if line.starts_with("msg ") || line.starts_with("rt ") || line.starts_with("asm ") || line.starts_with("resp ") || line.starts_with("tsnew ") {
         crate::props::msgemit::exec(line, rec, |v| v.n_err == 0 && v.len > 40)
     } else {
         encscript::exec(line, rec, nontrivial)
@@ -272,6 +272,10 @@ pub fn run(o: &Opts, rec: &mut Recorder) {
         rec.stat("line.rt.directed-edns");
         exec(&l, rec);
     }
+    // RecordTypeSet built by hand (no original encoding): the fresh window / bitmap encoder
+    for l in directed_fresh_typesets(o.seed) {
+        exec(&l, rec);
+    }
     use crate::props::c01;
     use crate::props::msgemit::{fnv1a, gen_message_tier};
     let mut r = Rng::new(o.seed ^ 0x00C0_2B00);
@@ -310,6 +314,33 @@ pub fn run(o: &Opts, rec: &mut Recorder) {
             }
         }
     }
+}
+
+/// `tsnew` lines: type sets over the boundaries of the window / bitmap encoding
+fn directed_fresh_typesets(seed: u64) -> Vec<String> {
+    let mut r = Rng::new(seed ^ 0x7575_E701);
+    let mut v = vec!["tsnew -".to_string()];
+    let show = |ts: &[u16]| ts.iter().map(|t| t.to_string()).collect::<Vec<_>>().join(",");
+    for ts in [
+        vec![1u16], vec![0], vec![7], vec![8], vec![255], vec![256], vec![257], vec![65535], vec![65280],
+        vec![1, 2, 6, 15, 16, 28, 46, 47, 48], vec![47, 46, 1, 1, 47], vec![255, 256, 511, 512, 65535, 0],
+        vec![1, 257, 513, 769, 1025], vec![248, 249, 250, 251, 252, 253, 254, 255],
+    ] {
+        v.push(format!("tsnew {}", show(&ts)));
+    }
+    for _ in 0..40 {
+        let n = r.range(1, 12) as usize;
+        let ts: Vec<u16> = (0..n)
+            .map(|_| match r.below(4) {
+                0 => r.below(64) as u16,
+                1 => r.below(300) as u16,
+                2 => (r.below(4) * 256 + r.below(256)) as u16,
+                _ => r.next() as u16,
+            })
+            .collect();
+        v.push(format!("tsnew {}", show(&ts)));
+    }
+    v
 }
 
 /// A query whose only record is an OPT record with the given option octets (RDATA), as wire bytes.
